@@ -122,8 +122,11 @@ func evalC09(c *Ctx, cs *Case) {
 		hasExt := ei != 0
 		// the real run (second jail): accept/reject for names + counts
 		realPer, realErr, realOK := realCounts(c, doc, merged, exts, hasExt)
-		wantReport := model.DryRunReport(merged, model.DefaultBranch, exts)
-		wantBlocks := model.DryRunBlocks(merged, model.DefaultBranch, exts)
+		// branch strings for the reports of this extension list: default or a custom tuple
+		bi := []int{0, 0, 3, 6}[(ei+int(cs.Seed%4))%4]
+		bopts := BranchOptions(bi)
+		wantReport := model.DryRunReport(merged, BranchTuples[bi], exts)
+		wantBlocks := model.DryRunBlocks(merged, BranchTuples[bi], exts)
 		if realOK && realErr == nil {
 			// the model's counts must be what the real Mkdir created (two real code paths compared)
 			for _, root := range merged {
@@ -144,7 +147,7 @@ func evalC09(c *Ctx, cs *Case) {
 					continue
 				}
 				before := j.Snap()
-				opts := fsOpts("", exts, hasExt, true, massive, false)
+				opts := append(fsOpts("", exts, hasExt, true, massive, false), bopts...)
 				cs.Entry = "OutputFromMarkdown[dryrun," + mode + "]"
 				cs.Tags = []string{mode}
 				cs.Opt = map[string]string{"ext": strconv.Itoa(ei)}
@@ -229,7 +232,7 @@ func evalC09(c *Ctx, cs *Case) {
 				base := runtime.NumGoroutine()
 				var o Outcome
 				rep := captureColorOutput(func() {
-					o = mkdirCall(mkdirRoutes[1], "", root, fsOpts(j.Target, exts, hasExt, true, massive, false))
+					o = mkdirCall(mkdirRoutes[1], "", root, append(fsOpts(j.Target, exts, hasExt, true, massive, false), bopts...))
 					if massive {
 						c09Quiet.Quiesce(base)
 					}
@@ -254,8 +257,8 @@ func evalC09(c *Ctx, cs *Case) {
 					c.Violation(cs, "dryrun.fs-changed", "", det)
 				case ro.Panic == nil && (o.Err == nil) != !nameReject(ro.Err):
 					c.Violation(cs, "dryrun.accept-differs-from-real", "", det)
-				case o.Err == nil && !hostile && string(rep) != model.DryRunReport(mr, model.DefaultBranch, exts):
-					det["want"] = model.DryRunReport(mr, model.DefaultBranch, exts)
+				case o.Err == nil && !hostile && string(rep) != model.DryRunReport(mr, BranchTuples[bi], exts):
+					det["want"] = model.DryRunReport(mr, BranchTuples[bi], exts)
 					c.Violation(cs, "dryrun.report-differs", "", det)
 				}
 			}
